@@ -60,33 +60,63 @@ Proof.
   destruct m; reflexivity.
 Qed.
 
-(* a read after a seek does not panic when the in-block offset is within the loaded block *)
-Theorem seek_then_total : forall frames k upos how,
-  upos <= loaded_len (skipn k frames) -> is_panic (seek_then frames k upos how) = false.
+Lemma seek_with_inv : forall setp frames upos,
+  (forall c p, fst c <= snd c -> fst (setp c p) <= snd (setp c p)) ->
+  fst (fst (seek_with setp frames upos)) <= snd (fst (seek_with setp frames upos)).
 Proof.
-  intros frames k upos how H. unfold seek_then, seek, loaded_len in *.
-  destruct (read_block (skipn k frames) (0, 0)) as [[p len] rest] eqn:R. cbn [fst snd] in H.
+  intros setp frames upos Hs. unfold seek_with.
+  pose proof (read_block_inv frames (0, 0)) as Hinv.
+  destruct (read_block frames (0, 0)) as [c rest] eqn:R. cbn [fst snd] in *.
+  apply Hs. destruct (snd c =? 0); cbn [fst snd]; [lia|]. apply Hinv. lia.
+Qed.
+
+(* after the repair: a read after a seek never panics, whatever the file layout, the frame sought
+   to and the in-block offset *)
+Theorem seek_then_total : forall frames k upos how, is_panic (seek_then frames k upos how) = false.
+Proof.
+  intros frames k upos how. unfold seek_then, seek_then_with.
+  pose proof (seek_with_inv set_position (skipn k frames) upos) as Hinv.
+  destruct (seek_with set_position (skipn k frames) upos) as [c rest] eqn:R. cbn [fst snd] in Hinv.
+  assert (Hc : fst c <= snd c).
+  { apply Hinv. intros c0 p H0. unfold set_position. cbn [fst snd]. lia. }
   destruct (how =? 0).
-  - apply fill_buf_total. cbn [fst snd]. exact H.
-  - apply read_exact1_total. cbn [fst snd]. exact H.
+  - apply fill_buf_total. exact Hc.
+  - apply read_exact1_total. exact Hc.
 Qed.
 
-(* read_exact after a seek beyond the block's data always panics (candidate finding F12) *)
-Theorem seek_read_exact_panics : forall frames k upos how,
-  how <> 0 -> loaded_len (skipn k frames) < upos ->
-  seek_then frames k upos how = Panic S_DATA_SLICE.
+(* before the repair: no panic when the offset is within the loaded block ... *)
+Theorem seek_then_unclamped_total : forall frames k upos how,
+  upos <= loaded_len (skipn k frames) -> is_panic (seek_then_unclamped frames k upos how) = false.
 Proof.
-  intros frames k upos how Hh H. unfold seek_then, seek, loaded_len in *.
-  destruct (read_block (skipn k frames) (0, 0)) as [[p len] rest] eqn:R. cbn [fst snd] in H.
-  destruct (how =? 0) eqn:E; [lia|].
-  unfold read_exact1, data_as_ref. destruct (upos <=? len) eqn:E2; [lia | reflexivity].
+  intros frames k upos how H. unfold seek_then_unclamped, seek_then_with, seek_with, loaded_len in *.
+  destruct (read_block (skipn k frames) (0, 0)) as [[p len] rest] eqn:R. cbn [fst snd] in *.
+  assert (Hc : fst (set_position_unclamped (if len =? 0 then (0, 0) else (p, len)) upos)
+               <= snd (set_position_unclamped (if len =? 0 then (0, 0) else (p, len)) upos)).
+  { unfold set_position_unclamped. destruct (len =? 0) eqn:E; cbn [fst snd]; lia. }
+  destruct (how =? 0).
+  - apply fill_buf_total. exact Hc.
+  - apply read_exact1_total. exact Hc.
 Qed.
 
-Example seek_witness_read_exact : seek_then [5] 0 6 1 = Panic S_DATA_SLICE.
+(* ... and read_exact ALWAYS panicked beyond it (finding F12, now repaired) *)
+Theorem seek_read_exact_unclamped_panics : forall frames k upos how,
+  how <> 0 -> loaded_len (skipn k frames) < upos ->
+  seek_then_unclamped frames k upos how = Panic S_DATA_SLICE.
+Proof.
+  intros frames k upos how Hh H. unfold seek_then_unclamped, seek_then_with, seek_with, loaded_len in *.
+  destruct (read_block (skipn k frames) (0, 0)) as [[p len] rest] eqn:R. cbn [fst snd] in *.
+  destruct (how =? 0) eqn:E; [lia|].
+  unfold set_position_unclamped, read_exact1, data_as_ref.
+  destruct (len =? 0) eqn:E0; cbn [fst snd].
+  - destruct (upos <=? 0) eqn:E2; [lia | reflexivity].
+  - destruct (upos <=? len) eqn:E2; [lia | reflexivity].
+Qed.
+
+Example seek_witness_read_exact_old : seek_then_unclamped [5] 0 6 1 = Panic S_DATA_SLICE.
 Proof. vm_compute. reflexivity. Qed.
-Example seek_witness_fill_buf_recovers : seek_then [5; 0] 0 6 0 = Ok 0.
+Example seek_read_exact_now : seek_then [5] 0 6 1 = Err.
 Proof. vm_compute. reflexivity. Qed.
-Example seek_witness_fill_buf_at_end : seek_then [0] 0 1 0 = Panic S_DATA_SLICE.
+Example seek_fill_buf_now : seek_then [5; 0] 0 6 0 = Ok 0.
 Proof. vm_compute. reflexivity. Qed.
 Example seek_ok_example : seek_then [5; 7] 1 3 0 = Ok 4.
 Proof. vm_compute. reflexivity. Qed.
